@@ -64,6 +64,39 @@ Proof.
   - left. unfold setCloseError in H. rewrite Hn in H. cbn in H. congruence.
 Qed.
 
+(** exactly one recorded cause, and it has an origin in the history: whatever events race — close requests from the
+    application, from the peer's CONNECTION_CLOSE, from Transport.Close / destroy, the timers of the loop — if a cause is
+    recorded after a history, it is the close request of one of its events or the timeout found by one of its wake-ups,
+    and it is the one recorded after every extension of the history *)
+Lemma recorded_cause_origin : forall l s ce, closeErr s = None -> closeErr (run s l) = Some ce ->
+  (In (EvClose ce) l \/
+   exists now pto, In (EvWake now pto) l /\
+     (ce = {| ce_err := EIdle; ce_immediate := true |} \/ ce = {| ce_err := EHsTimeout; ce_immediate := true |})) /\
+  forall l', closeErr (run s (l ++ l')) = Some ce.
+Proof.
+  induction l as [|e l IH]; intros s ce Hn H; [cbn in H; congruence|].
+  rewrite run_cons in H. destruct (closeErr (step s e)) as [ce'|] eqn:E.
+  - rewrite (run_keeps_cause l _ _ E) in H. inversion H; subst ce'. split.
+    + destruct (step_sets_cause _ _ _ Hn E) as [X|[now [pto [X [[_ C]|[_ C]]]]]]; subst e.
+      * left. left. reflexivity.
+      * right. exists now, pto. split; [left; reflexivity|auto].
+      * right. exists now, pto. split; [left; reflexivity|auto].
+    + intros l'. cbn [app]. rewrite run_cons. apply run_keeps_cause. exact E.
+  - destruct (IH _ _ E H) as [[X|[now [pto [X C]]]] K]; split.
+    + left. right. exact X.
+    + intros l'. cbn [app]. rewrite run_cons. apply K.
+    + right. exists now, pto. split; [right; exact X|exact C].
+    + intros l'. cbn [app]. rewrite run_cons. apply K.
+Qed.
+
+(** racing close requests: in whatever order they reach setCloseError, the recorded cause is the one that came first *)
+Lemma race_first_wins : forall s reqs ce rest, closeErr s = None ->
+  closeErr (run s (map EvClose (ce :: reqs) ++ rest)) = Some ce.
+Proof.
+  intros s reqs ce rest H. cbn [map app]. rewrite run_cons. apply run_keeps_cause. cbn [step].
+  apply setCloseError_first. exact H.
+Qed.
+
 (** *** fan-out *)
 
 Definition own_result (r : res) : Prop := r = REOF \/ r = RStreamErr \/ r = RClosedStream.
@@ -246,6 +279,19 @@ Proof.
   assert (X : exists a c, close_action client sf true ce = ActSendClose a c) by eauto.
   apply close_frame_iff in X. destruct X as (_ & _ & _ & _ & X). discriminate.
 Qed.
+
+(** the frame a peer sees that has not completed the handshake (it can only read Initial / Handshake packets): never an
+    application close — APPLICATION_ERROR as a transport close instead —, transport errors unchanged; at 1-RTT unchanged *)
+Lemma frame_at_levels : forall isApp code,
+  frame_at LInitial (isApp, code) = frame_at LHandshake (isApp, code) /\
+  fst (frame_at LInitial (isApp, code)) = false /\
+  (isApp = true -> frame_at LInitial (isApp, code) = (false, rl_ApplicationErrorErrorCode)) /\
+  (isApp = false -> frame_at LInitial (isApp, code) = (false, code)) /\
+  frame_at L1RTT (isApp, code) = (isApp, code) /\ frame_at L0RTT (isApp, code) = (isApp, code).
+Proof. intros [] code; repeat split; intros; try reflexivity; discriminate. Qed.
+
+Lemma application_error_code_is_0xc : rl_ApplicationErrorErrorCode = 12.
+Proof. reflexivity. Qed.
 
 (** *** closed-connection stand-in: replies exactly on packets 1, 2, 4, 8, ... *)
 
